@@ -349,7 +349,7 @@ class Lexical(object):
                 'every identifier position; an identifier with a trailing hyphen in every identifier position; the '
                 'error must be a PySmiLexerError on exactly the line of that token')
 
-    BIG = ['18446744073709551616', '1' + '0' * 30, '-18446744073709551616']
+    BIG = ['18446744073709551616', '1' + '0' * 30, '-18446744073709551616', '9' * 5000]
 
     def blocks(self, tier):
         seeds = QUICK_SEEDS + (MORE_SEEDS if tier == 'thorough' else [])
@@ -370,6 +370,8 @@ class Lexical(object):
                 words = FORBIDDEN if (tok[0].isupper() or tier == 'thorough') else FORBIDDEN[:3]
                 for w in words:
                     yield {'e': block['e'], 'i': i, 'w': w}
+                if not e['v1'] and not e.get('only'):
+                    yield {'e': block['e'], 'i': i, 'w': 'MAX'}   # forbidden in the strict dialect, a keyword in the SMIv1 ones
                 if tok not in ('MACRO', 'EXPORTS', 'CHOICE'):
                     # these three are recognised as prefixes by dedicated lexer rules (CHOICE- is CHOICE + body)
                     yield {'e': block['e'], 'i': i, 'w': tok + '-'}
@@ -386,7 +388,7 @@ class Lexical(object):
         outs = []
         for mode in ('B', 'C'):
             text, offs = layout(tokens, mode)
-            res = run_parse(text, dialect_of(e, i))
+            res = run_parse(text, 'smiV2' if case['w'] == 'MAX' else dialect_of(e, i))
             outs.append(res[0])
             cls = 'big-number' if case['w'].lstrip('-').isdigit() else 'trailing-hyphen' if case['w'].endswith('-') \
                 else 'forbidden-word'
